@@ -26,10 +26,11 @@ themes = {1: 'any realistic break', 2: 'the less obvious corners', 3: 'CONJUNCTI
           11: 'breaks that need TWO INDEPENDENT ADVERSE EVENTS in one history, or a legal event arriving in a RARE STATE, and roll-back / clean-up code that runs only then',
           12: 'TIME and the order of work inside one loop turn (deadlines computed from the wrong base, several deadlines due in one turn, a process that was suspended for minutes, events served in the turn in which a deadline expires, counters and jitter that drift)',
           13: 'a BUSIER daemon (three or more peers, several connections, several local addresses, several protect entries, many CHILD_SAs: state looked up by the wrong key, cross-talk between connections, the 2nd / 3rd element of a list) and the small helpers the state machine relies on',
-          14: 'OPEN (ten properties with the most recent misses only): whatever the author judged least likely to be exercised - fixes with a side effect, behaviour that depends on the history of an object, four-step sequences, role / family / protocol / mode asymmetries, the right value in the wrong place'}
+          14: 'OPEN (ten properties with the most recent misses only): whatever the author judged least likely to be exercised - fixes with a side effect, behaviour that depends on the history of an object, four-step sequences, role / family / protocol / mode asymmetries, the right value in the wrong place',
+          15: 'DATA- and HISTORY-DEPENDENT breaks (twelve properties: the ten that round 14 left out, plus C10 and C17): behaviour that differs only for particular byte values or lengths drawn at run time (an SPI / nonce / cookie / key / IV / DH value that starts or ends with 0x00 / 0xff, has its top bit set, is exactly one block / 255 / 256 / 65535 octets long, zero or full-block padding), only for a legal non-default algorithm / group / identity / family combination, only the third time something happens to an object or after an earlier failure left a field set, or the right computation applied to the wrong one of two values that coincide in symmetric set-ups'}
 head = f"""## 6. Seeded property-breaking changes and which checks catch them
 
-{n} changes in {len(rounds)} rounds (two per property and round; the fourteenth round covered ten properties and one of its authors delivered a single change), each written by a fresh sub-agent that saw only the property text and a scratch worktree of /repo
+{n} changes in {len(rounds)} rounds (two per property and round; the fourteenth round covered ten properties and one of its authors delivered a single change, the fifteenth covered twelve), each written by a fresh sub-agent that saw only the property text and a scratch worktree of /repo
 (nothing from /verif), each confirmed independently in a new scratch worktree (patch applies, 176 tests unchanged, the author's demo fails with and
 passes without it) and stored as `seeded/<id>/{{patch.diff, demo.py, notes.md, meta.json}}`. `tools/seedtest.py run <id> [checks]` re-runs any of them
 against a scratch worktree of the current /repo HEAD (never against /repo itself); `seeded/MATRIX.json` holds the first 80 against all 20 checks.
